@@ -66,6 +66,11 @@ SlotShown(o, c) ==
          /\ o.fmin = 1 /\ o.fmax = 1
          /\ c.num \in SeqToSet(o.num)
 
+(* no two live calibrations of a container carry the same name *)
+ObsNamesUnique(slots) ==
+    \A i, j \in 1..Len(slots) :
+        (slots[i].u = 1 /\ slots[j].u = 1 /\ slots[i].name = slots[j].name) => i = j
+
 Shown(obs, st) ==
     /\ obs.end = EndOf(st)
     /\ Len(obs.slots) = obs.end
@@ -138,6 +143,8 @@ TSave ==
     IN /\ ev.e = "Save"
        /\ Explain((ev.ok = 1) = r.ok, <<l, "Save", "ok", <<r.ok, s.fprec, s.dprec>>>>)
        /\ Explain(ev.cbn = 0, <<l, "Save", "cbn", 0>>)
+       /\ Explain(ObsNamesUnique(ev.obs.slots) /\ NamesUnique(s),
+                  <<l, "Save", "names", "saved calibration names are unique">>)
        /\ Explain(Shown(ev.obs, r.st), <<l, "Save", "obs", r.st>>)
        /\ Explain(SameDoc(ev.g, s.gprops), <<l, "Save", "g", s.gprops>>)
        /\ s' = r.st
@@ -167,6 +174,7 @@ TLoad ==
              /\ Explain(ev.fp = file.fprec /\ ev.dp = file.dprec,
                         <<l, "Load", "precision", <<file.fprec, file.dprec>>>>)
              /\ Explain(ev.end = n /\ Len(ev.slots) = n, <<l, "Load", "end", n>>)
+             /\ Explain(ObsNamesUnique(ev.slots), <<l, "Load", "names", "loaded names are unique">>)
              /\ Explain(SameDoc(ev.g, r.st.gprops), <<l, "Load", "g", r.st.gprops>>)
              /\ Explain(\A k \in 1..n : LoadedSlotOK(ev.slots[k], k),
                         <<l, "Load", "slots", r.st.slots>>)
